@@ -335,3 +335,57 @@ impl From<&KademliaPeer> for schema::kademlia::Peer {
         }
     }
 }
+
+/// Verification hooks: keys with chosen raw bytes and read accessors for [`KademliaPeer`].
+#[cfg(feature = "verif")]
+impl<T: Clone> Key<T> {
+    /// Same as the test-only `Key::from_bytes`, from a raw 32-byte array.
+    pub fn verif_from_raw(bytes: [u8; 32], preimage: T) -> Key<T> {
+        Self {
+            bytes: KeyBytes(Array::from(bytes)),
+            preimage,
+        }
+    }
+
+    /// Raw bytes of the key.
+    pub fn verif_raw(&self) -> [u8; 32] {
+        let mut out = [0u8; 32];
+        out.copy_from_slice(self.bytes.0.as_slice());
+        out
+    }
+}
+
+#[cfg(feature = "verif")]
+impl KademliaPeer {
+    pub fn verif_key(&self) -> &Key<PeerId> {
+        &self.key
+    }
+
+    pub fn verif_has_addresses(&self) -> bool {
+        !self.address_store.is_empty()
+    }
+
+    pub fn verif_connection(&self) -> ConnectionType {
+        self.connection
+    }
+
+    pub fn verif_set_connection(&mut self, connection: ConnectionType) {
+        self.connection = connection;
+    }
+
+    /// Overwrite the slot the way `KBucketEntry::insert` does, but keep the given key instead
+    /// of recomputing it from the peer ID (what the crate's own tests do through `Vacant`).
+    pub fn verif_overwrite(
+        &mut self,
+        key: Key<PeerId>,
+        peer: PeerId,
+        addresses: Vec<Multiaddr>,
+        connection: ConnectionType,
+    ) {
+        let new = KademliaPeer::new(peer, addresses, connection);
+        self.peer = new.peer;
+        self.key = key;
+        self.address_store = new.address_store;
+        self.connection = new.connection;
+    }
+}
